@@ -205,6 +205,26 @@ fn head_case(rng: &mut Rng, all_prefixes: bool, redirect_focus: bool, rec: &mut 
                     return;
                 }
                 rec.cov(if end == hlen { "complete/exact" } else { "complete/with-tail" });
+                // the same flow is offered the head once more (what a caller does that wants the response
+                // behind an interim 102/103, which this state hands out like any other): it is a head like
+                // the first
+                if ri % 2 == 1 && truth.status != 100 {
+                    rec.call();
+                    match f.try_response(&stream[..end]) {
+                        Ok((n2, Some(resp2))) => {
+                            if !check_complete(&truth, hlen, n2, &observe_response(&resp2), rec, "Flow (second head on the same flow)") {
+                                return;
+                            }
+                            rec.cov("complete/second-head-on-the-same-flow");
+                        }
+                        other => {
+                            return rec.fail(
+                                "C05/second-head-not-accepted",
+                                format!("a complete head of {} bytes offered a second time to the same flow: {:?}", hlen, other.map(|(n, r)| (n, r.is_some()))),
+                            )
+                        }
+                    }
+                }
             }
             other => {
                 return rec.fail(
